@@ -159,6 +159,23 @@ def gen_inputs(tier):
         for nm, imports in zip(names, combo):
             files[nm + ".fcp"] = 'version: "3"\n' + "".join("mod %s;\n" % i for i in imports) + "struct S_%s { x @0: u8, }\n" % nm
         fam["modgraph"].append(("graph:" + ";".join("%s<-%s" % (nm, ",".join(im)) for nm, im in zip(names, combo)), json.dumps(files, sort_keys=True)))
+    # layered graphs: two modules per level, each importing both modules of the next level; 2^levels paths reach the leaf.
+    # With a valid and with a broken leaf: the work has to follow the number of FILES, not the number of paths.
+    for levels in (4, 8, 12, 16) + ((20, 24) if tier != "quick" else ()):
+        for leaf_label, leaf in (("valid", "struct L { x @0: u8, }"), ("broken", "struct L { x @0: Missing, }"), ("syntax", "struct L { x @0 u8, }")):
+            files = {"main.fcp": 'version: "3"\nmod l0a;\nmod l0b;\n', "leaf.fcp": 'version: "3"\n' + leaf + "\n"}
+            for i in range(levels):
+                nxt = "mod l%da;\nmod l%db;\n" % (i + 1, i + 1) if i + 1 < levels else "mod leaf;\n"
+                for ab in "ab":
+                    files["l%d%s.fcp" % (i, ab)] = 'version: "3"\n' + nxt + "struct S%d%s { x @0: u8, }\n" % (i, ab)
+            fam["modgraph"].append(("layered:%d:%s" % (levels, leaf_label), json.dumps(files, sort_keys=True)))
+    # the main FILE as bytes that are not UTF-8 text
+    fam["rawfile"] = [
+        ("latin-1", ('version: "3"\n// temperature in \u00b0C\nstruct S { a @0: u8, }\n'.encode("latin-1")).hex()),
+        ("utf-16", ('version: "3"\nstruct S { a @0: u8, }\n'.encode("utf-16")).hex()),
+        ("random-bytes", bytes(range(128, 256)).hex()),
+        ("nul-bytes", (b'version: "3"\n\x00\x00struct S { a @0: u8, }\n').hex()),
+    ]
     return fam
 
 
@@ -250,7 +267,14 @@ def make_worker(tier):
     def work(chunk):
         S = Stats()
         for family, label, text in chunk:
-            if family == "modgraph":
+            if family == "rawfile":
+                td = tempfile.mkdtemp(prefix="fcpmc-c11-")
+                try:
+                    open(os.path.join(td, "main.fcp"), "wb").write(bytes.fromhex(text))
+                    one(S, family, label, text, via=os.path.join(td, "main.fcp"))
+                finally:
+                    shutil.rmtree(td, ignore_errors=True)
+            elif family == "modgraph":
                 td = tempfile.mkdtemp(prefix="fcpmc-c11-")
                 try:
                     for fn, body in json.loads(text).items():
@@ -370,7 +394,7 @@ def run(tier):
     fam["module"] += [("module-late-" + l, t.replace('version: "3"\n', 'version: "3"\n\n/* pad */\n\n\nstruct Pad { p @0: u8, }\n\n', 1)) for l, t in fam["literal"] if t.startswith('version: "3"\n')]
     items = []
     fam["module"] += [("module-" + l, t) for l, t in fam["deep"]]
-    for family in ("literal", "deep", "modgraph", "module", "sequence", "mutation", "prefix"):
+    for family in ("literal", "deep", "modgraph", "rawfile", "module", "sequence", "mutation", "prefix"):
         for label, text in fam[family]:
             items.append((family, label, text))
     r.bounds = {f: len(v) for f, v in fam.items()}
